@@ -58,7 +58,9 @@ func verifH_C11_cross_directory_cycle() {
 	leaf := []string{`{"type":"string","description":"leaf"}`, `{"name":"p","in":"query","description":"leaf","schema":{"type":"string"}}`, `{"description":"leaf"}`, `{"description":"leaf","schema":{"type":"string"}}`}[kind]
 	// the component through which b.json comes back into the root sorts before or after the entry that leads out
 	back := []string{"R", "0R"}[verifChoose("order", 2)]
-	head := func(t string) string { return `{"openapi":"3.0.0","info":{"title":"` + t + `","version":"1"},"paths":{},` }
+	head := func(t string) string {
+		return `{"openapi":"3.0.0","info":{"title":"` + t + `","version":"1"},"paths":{},`
+	}
 	var inB string
 	if kind == 0 {
 		inB = `{"type":"object","properties":{"back":{"$ref":"../root.json#/components/schemas/` + back + `"}}}`
